@@ -513,6 +513,44 @@ def run_numbers(case, part):
             part.violation("C09/not-reflexive/numeric-constant", "a pattern is not reported equivalent to itself", c, True, False)
 
 
+# ---- PATH: object paths that extend one another (exact-structure oracle, both argument orders) -------------------------
+PATH_MENU = [(("key", "p"),), (("key", "p"), ("key", "q")), (("key", "p"), ("key", "q"), ("key", "r")), (("key", "p"), ("idx", 1)), (("key", "p"), ("idx", 2)), (("key", "p"), ("idx", "*")),
+             (("key", "p"), ("idx", 1), ("key", "q")), (("key", "p"), ("idx", "*"), ("key", "q")), (("key", "hashes"),), (("key", "hashes"), ("key", "MD5")), (("key", "hashes"), ("key", "SHA-256")),
+             (("key", "q"),), (("key", "q"), ("key", "p")), (("key", "p_ref"), ("key", "q")), (("key", "p_ref"),), (("key", "p"), ("key", "q"), ("idx", 1))]
+
+
+def path_patterns():
+    out = []
+    for path in PATH_MENU:
+        out.append((A.to_text(("leaf", ("cmp", "=", False, ("path", "x", path), S("v")))), ("eq", path)))
+    for a, b in itertools.combinations(PATH_MENU[:8], 2):
+        out.append((A.to_text(("leaf", ("bool", "OR", (("cmp", "=", False, ("path", "x", a), S("v")), ("cmp", "=", False, ("path", "x", b), S("v")))))), ("or", frozenset([a, b]))))
+    return out
+
+
+def run_paths(case, part):
+    """all ordered pairs: equivalent exactly when the same set of paths is constrained (a path is never equivalent to an extension of itself, in either argument order)"""
+    env.reset()
+    pats = path_patterns()
+    i = case["row"]
+    ti, di = pats[i]
+    part.state(("PATH", ti), nontrivial=True)
+    for j, (tj, dj) in enumerate(pats):
+        part.evaluations += 1
+        part.transitions += 1
+        r, err = call_eq(ti, tj)
+        c = {"kind": "paths", "row": i, "p": ti, "q": tj}
+        if err:
+            part.violation("C09/raises/%s/object-path" % err, "the equivalence test fails on syntactically valid patterns", c, "a boolean", err)
+            continue
+        same = (di[1] == dj[1]) if di[0] == dj[0] else (di[0] == "eq" and dj[1] == frozenset([di[1]])) or (dj[0] == "eq" and di[1] == frozenset([dj[1]]))
+        part.outcome("equivalent" if r == "1" else "different")
+        if r == "1" and not same:
+            part.violation("C09/unsound/object-paths", "patterns that constrain different object paths are reported equivalent", c, "different", "equivalent")
+        if r == "0" and i == j:
+            part.violation("C09/not-reflexive/object-path", "a pattern is not reported equivalent to itself", c, True, False)
+
+
 # ---- M: several object types in one pattern (find_equivalent_patterns vs pairwise on EVERY pair) ---------------
 def multi_type_patterns():
     a, b, c = (("cmp", "=", False, ("path", t, (("key", "p"),)), I(1)) for t in ("aa-a", "bb-b", "cc-c"))
@@ -565,6 +603,8 @@ def run_case(case, part):
         return run_numbers(case, part)
     if case["kind"] == "multitype":
         return run_multitype(case, part)
+    if case["kind"] == "paths":
+        return run_paths(case, part)
     return run_rewrites(case, part)
 
 
@@ -708,6 +748,8 @@ def run(run):
         cases.append({"kind": "numbers", "row": i})
     for i in range(len(multi_type_patterns())):
         cases.append({"kind": "multitype", "row": i})
+    for i in range(len(path_patterns())):
+        cases.append({"kind": "paths", "row": i})
     # the same rewrite instances once more, each chunk after a warm-up of 600 ordinary comparisons in the same process: the answer must not depend on
     # how much the process has already compared
     cases += [{"kind": "rewrites", "lo": lo, "hi": lo + 50, "thorough": th, "phase": "late"} for lo in range(0, nrw, 50)]
